@@ -225,18 +225,18 @@ func (x *Exec) fieldWrite(st *State, sname, path string, t types.Type, ref strin
 		el := t.Underlying().(*types.Slice).Elem()
 		key := sname + "." + path
 		as := arrSort(arrSort(e.elemSort(el)))
-		x.heapSet(st, key+".arr", as, Store(x.heapGet(st, key+".arr", as), ref, v.F["arr"].S))
-		x.heapSet(st, key+".off", SArrI, Store(x.heapGet(st, key+".off", SArrI), ref, v.F["off"].S))
-		x.heapSet(st, key+".len", SArrI, Store(x.heapGet(st, key+".len", SArrI), ref, v.F["len"].S))
+		x.heapSetAt(st, key+".arr", as, Store(x.heapGet(st, key+".arr", as), ref, v.F["arr"].S), ref)
+		x.heapSetAt(st, key+".off", SArrI, Store(x.heapGet(st, key+".off", SArrI), ref, v.F["off"].S), ref)
+		x.heapSetAt(st, key+".len", SArrI, Store(x.heapGet(st, key+".len", SArrI), ref, v.F["len"].S), ref)
 	case KUnit:
 	case KBool:
-		x.heapSet(st, sname+"."+path, SArrB, Store(x.heapGet(st, sname+"."+path, SArrB), ref, v.S))
+		x.heapSetAt(st, sname+"."+path, SArrB, Store(x.heapGet(st, sname+"."+path, SArrB), ref, v.S), ref)
 	default:
 		if v.K != KInt {
 			x.abstract("storing non-scalar into scalar field " + sname + "." + path)
 			v = x.freshVal("store", t)
 		}
-		x.heapSet(st, sname+"."+path, SArrI, Store(x.heapGet(st, sname+"."+path, SArrI), ref, v.S))
+		x.heapSetAt(st, sname+"."+path, SArrI, Store(x.heapGet(st, sname+"."+path, SArrI), ref, v.S), ref)
 	}
 }
 
@@ -622,16 +622,16 @@ func (x *Exec) mapWrite(st *State, m *Val, t types.Type, k, v *Val, pos token.Po
 	x.noPanic(st, pos, "assignment to entry in nil map", Not(Eq(m.S, "0")))
 	dh := x.heapGet(st, domK, SArrAB)
 	vh := x.heapGet(st, valK, arrSort(arrSort(vs)))
-	x.heapSet(st, domK, SArrAB, Store(dh, m.S, Store(Select(dh, m.S), k.S, "true")))
-	x.heapSet(st, valK, arrSort(arrSort(vs)), Store(vh, m.S, Store(Select(vh, m.S), k.S, v.S)))
+	x.heapSetAt(st, domK, SArrAB, Store(dh, m.S, Store(Select(dh, m.S), k.S, "true")), m.S)
+	x.heapSetAt(st, valK, arrSort(arrSort(vs)), Store(vh, m.S, Store(Select(vh, m.S), k.S, v.S)), m.S)
 }
 
 func (x *Exec) mapDelete(st *State, m *Val, t types.Type, k *Val) {
 	domK, valK, vs, _ := x.mapKeys(t)
 	dh := x.heapGet(st, domK, SArrAB)
 	vh := x.heapGet(st, valK, arrSort(arrSort(vs)))
-	x.heapSet(st, domK, SArrAB, Store(dh, m.S, Store(Select(dh, m.S), k.S, "false")))
-	x.heapSet(st, valK, arrSort(arrSort(vs)), Store(vh, m.S, Store(Select(vh, m.S), k.S, x.zeroOfSort(vs))))
+	x.heapSetAt(st, domK, SArrAB, Store(dh, m.S, Store(Select(dh, m.S), k.S, "false")), m.S)
+	x.heapSetAt(st, valK, arrSort(arrSort(vs)), Store(vh, m.S, Store(Select(vh, m.S), k.S, x.zeroOfSort(vs))), m.S)
 }
 
 func (x *Exec) mapMake(st *State, t types.Type) *Val {
@@ -639,8 +639,8 @@ func (x *Exec) mapMake(st *State, t types.Type) *Val {
 	ref := x.alloc(st, "map")
 	dh := x.heapGet(st, domK, SArrAB)
 	vh := x.heapGet(st, valK, arrSort(arrSort(vs)))
-	x.heapSet(st, domK, SArrAB, Store(dh, ref, "((as const (Array Int Bool)) false)"))
-	x.heapSet(st, valK, arrSort(arrSort(vs)), Store(vh, ref, "((as const "+arrSort(vs)+") "+x.zeroOfSort(vs)+")"))
+	x.heapSetAt(st, domK, SArrAB, Store(dh, ref, "((as const (Array Int Bool)) false)"), ref)
+	x.heapSetAt(st, valK, arrSort(arrSort(vs)), Store(vh, ref, "((as const "+arrSort(vs)+") "+x.zeroOfSort(vs)+")"), ref)
 	return IntV(ref, t)
 }
 
@@ -687,7 +687,7 @@ func (x *Exec) index(e *ast.IndexExpr, st *State) *Val {
 }
 
 func (x *Exec) sliceElem(st *State, s *Val, i string, el types.Type) *Val {
-	term := Select(s.F["arr"].S, "(+ "+s.F["off"].S+" "+i+")")
+	term := Select(s.F["arr"].S, Add(s.F["off"].S, i))
 	if x.e.kindOf(el) == KBool {
 		return BoolV(term)
 	}
@@ -714,7 +714,7 @@ func (x *Exec) storeIndex(l *ast.IndexExpr, v *Val, st *State) {
 		s := x.expr(l.X, st)
 		i := x.expr(l.Index, st)
 		x.noPanic(st, l.Pos(), "index out of range: "+x.e.srcText(l), And("(<= 0 "+i.S+")", "(< "+i.S+" "+s.F["len"].S+")"))
-		ns := x.sliceV(bt, Store(s.F["arr"].S, "(+ "+s.F["off"].S+" "+i.S+")", v.S), s.F["off"].S, s.F["len"].S)
+		ns := x.sliceV(bt, Store(s.F["arr"].S, Add(s.F["off"].S, i.S), v.S), s.F["off"].S, s.F["len"].S)
 		// value semantics for slices: element writes are only tracked through the expression written to
 		x.vc.assumed["A-SLICE: slices are modelled as values (no backing-array aliasing)"] = true
 		x.store(l.X, ns, st, false)
